@@ -84,6 +84,7 @@ func cmdCheck(args []string) int {
 		return 2
 	}
 	id := args[0]
+	checkedProperty = id
 	tier := "quick"
 	if len(args) > 1 {
 		tier = args[1]
@@ -225,11 +226,13 @@ func cmdCheck(args []string) int {
 		}
 		cand := map[string]bool{}
 		for f := range failedFn {
-			if c := g.cs.Funcs[f]; c != nil && c.SchemaOnly && g.inlinable(g.funcs[f]) {
+			// only functions that did not exist on the unchanged tree (helpers a refactoring introduced):
+			// a function that verified on its own before and fails now is a regression, not a candidate
+			if c := g.cs.Funcs[f]; c != nil && c.SchemaOnly && !knownFunction(f) && g.inlinable(g.funcs[f]) {
 				cand[f] = true
 			}
 			for callee := range g.uses[f] {
-				if c := g.cs.Funcs[callee]; c != nil && c.SchemaOnly && g.inlinable(g.funcs[callee]) && g.onlyCalledStatically(callee) {
+				if c := g.cs.Funcs[callee]; c != nil && c.SchemaOnly && !knownFunction(callee) && g.inlinable(g.funcs[callee]) && g.onlyCalledStatically(callee) {
 					cand[callee] = true
 				}
 			}
